@@ -772,6 +772,7 @@ func (p *Protocol) readLoop() {
 					break
 				}
 				p.pendingBytesMu.Unlock()
+				p.verifPt("read.backpressureWait")
 				// Wait briefly for recvLoop to drain pending bytes
 				select {
 				case <-p.stopChan:
